@@ -473,7 +473,7 @@ def alphabet(kind):
     else:
         raise ValueError(kind)
     ops = [("record", recs[0]), ("record", recs[1]),
-           ("select", [], ["x"]), ("select", [], ["id", "x"]), chsel,
+           ("select", [], ["x"]), ("select", [], ["id", "x"]), ("select", [], ["id", "id"]), chsel,
            ("stream",),
            ("pop", None), ("pop", -1), ("pop", 1),
            ("delitem", 0), ("delitem", -2),
@@ -611,6 +611,10 @@ def rand_history(rng, uniform):
             nrec += 1
         elif r < 0.46:
             names = rng.sample(["id", "x", "y", "m", "s"], rng.choice([0, 1, 1, 2, 3]))
+            if names and rng.random() < 0.25:
+                # the same name asked for twice (or three times): one chronological column per ARGUMENT
+                names = names + [rng.choice(names) for _ in range(rng.choice([1, 1, 2]))]
+                rng.shuffle(names)
             path = []
             if uniform and shape and nrec > 0 and rng.random() < 0.5:
                 c = rng.choice(list(shape))
